@@ -237,3 +237,79 @@ func genSecretUses(facts map[string]interface{}) string {
 	b.WriteString("]\n\nend Dc4bcVerif.Gen.SecretUses\n")
 	return b.String()
 }
+
+// genMachineFacts (Gen/MachineFacts.lean): what a round machine OBJECT can remember besides the dumped payload:
+// the fields of the three machine structs and every package-level variable of the machines' packages, of the FSM
+// engine and of the pool. A restored round is a fresh object plus the dump; anything else an object holds is forgotten
+// by a restore.
+func genMachineFacts(facts map[string]interface{}) string {
+	type ms struct{ dir, typ string }
+	var fields [][2]string
+	for _, m := range []ms{{"fsm/state_machines/signature_proposal_fsm", "SignatureProposalFSM"}, {"fsm/state_machines/dkg_proposal_fsm", "DKGProposalFSM"},
+		{"fsm/state_machines/signing_proposal_fsm", "SigningProposalFSM"}, {"fsm/state_machines", "FSMInstance"}, {"fsm/fsm", "FSM"}} {
+		pk := loadPkg(m.dir)
+		found := false
+		for _, f := range pk.files {
+			ast.Inspect(f, func(n ast.Node) bool {
+				ts, ok := n.(*ast.TypeSpec)
+				if !ok || ts.Name.Name != m.typ {
+					return true
+				}
+				st, ok := ts.Type.(*ast.StructType)
+				if !ok {
+					return false
+				}
+				found = true
+				var fs []string
+				for _, fl := range st.Fields.List {
+					if len(fl.Names) == 0 {
+						fs = append(fs, "embedded "+srcOf(fl.Type))
+					}
+					for _, nm := range fl.Names {
+						fs = append(fs, nm.Name+" "+srcOf(fl.Type))
+					}
+				}
+				fields = append(fields, [2]string{m.typ, strings.Join(fs, "; ")})
+				return false
+			})
+		}
+		if !found {
+			die("%s: struct %s not found", m.dir, m.typ)
+		}
+	}
+	var vars [][2]string
+	for _, dir := range []string{"fsm/state_machines", "fsm/state_machines/internal", "fsm/state_machines/signature_proposal_fsm", "fsm/state_machines/dkg_proposal_fsm",
+		"fsm/state_machines/signing_proposal_fsm", "fsm/fsm", "fsm/fsm_pool"} {
+		pk := loadPkg(dir)
+		for _, f := range pk.files {
+			for _, d := range f.Decls {
+				gd, ok := d.(*ast.GenDecl)
+				if !ok || gd.Tok.String() != "var" {
+					continue
+				}
+				for _, sp := range gd.Specs {
+					if vs, ok := sp.(*ast.ValueSpec); ok {
+						for _, nm := range vs.Names {
+							vars = append(vars, [2]string{dir, nm.Name})
+						}
+					}
+				}
+			}
+		}
+	}
+	facts["machine_facts"] = map[string]interface{}{"fields": fields, "vars": vars}
+	pairs := func(xs [][2]string) string {
+		out := make([]string, len(xs))
+		for i, x := range xs {
+			out[i] = fmt.Sprintf("(%s, %s)", leanStr(x[0]), leanStr(x[1]))
+		}
+		return "[" + strings.Join(out, ",\n  ") + "]"
+	}
+	var b strings.Builder
+	b.WriteString("-- GENERATED by /verif/translator from /repo fsm/state_machines/**, fsm/fsm, fsm/fsm_pool. DO NOT EDIT.\n")
+	b.WriteString("namespace Dc4bcVerif.Gen.MachineFacts\n\n")
+	fmt.Fprintf(&b, "/-- (struct, its fields) for the three round machines and the instance that wraps them -/\ndef machineFields : List (String × String) := %s\n\n", pairs(fields))
+	fmt.Fprintf(&b, "/-- (directory, name) of every package-level variable of the machines, the engine and the pool -/\ndef packageVars : List (String × String) := %s\n\n", pairs(vars))
+	b.WriteString("end Dc4bcVerif.Gen.MachineFacts\n")
+	return b.String()
+}
